@@ -36,7 +36,8 @@ TypeOK ==
   /\ pc \in {"start", "prepare", "verify", "run", "passDone", "unwind", "await", "returned"}
   /\ Cardinality(out) <= cfg.fetchers /\ Cardinality(hold) <= cfg.submitters
   /\ \A r \in out : r.s <= r.e /\ r.e < sth
-  /\ \A b \in bag : b.n >= 1 /\ b.s + b.n <= sth
+  /\ \A b \in bag : b.n >= 0 /\ b.s + b.n <= sth /\ (b.n = 0 <=> b.u > 0)
+  /\ \A h \in hold : h.n >= 0 /\ (h.n = 0 <=> h.u > 0) /\ (h.st = "wait" => h.n > 0)
   /\ faults \in 0..MaxFaults
 
 =============================================================================
